@@ -59,6 +59,11 @@ func C11(e *core.Env) int {
 		expectOK[name] = true
 		cases = append(cases, uc)
 	}
+	{
+		pc := pgen.PinnedMapValueAddr("pin_mapvalue_addr")
+		expectOK[pc.Name] = true
+		cases = append(cases, pc)
+	}
 	p, err := runPipelineOpts(e, "c11", cases, pipeOpts{Execute: true})
 	if err != nil {
 		rep.Inconclusive = append(rep.Inconclusive, err.Error())
